@@ -415,17 +415,20 @@ TTool ==
          need == {i \in Needed(g, T, L0, tg) : ~St(g, i).phony}
          needNV == {i \in NeededNV(g, T, L0, tg) : ~St(g, i).phony}
          one == {Prod(g, t) : t \in tg} \ ({0} \cup {q \in Ids(g) : St(g, q).phony})
+         acyc == AcyclicN(g, T, L0, Needed(g, T, L0, tg))
          seq == E.cmds
          dup == \E a, b \in DOMAIN seq : a < b /\ seq[a] = seq[b]
          misordered == \E k \in DOMAIN seq : seq[k] \in Ids(g) /\ \E q \in Producers(g, T, L0, seq[k]) : ~\E a \in 1..(k - 1) : seq[a] = q
          vs == (IF E.started THEN {V("C19", "a read-only tool executed a build command: -t " \o E.tool, "")} ELSE {})
                \cup (IF E.pre # E.tree THEN {V("C19", "a read-only tool changed a file of the build directory: -t " \o E.tool, "")} ELSE {})
                \cup (IF ~E.logsame THEN {V("C19", "a read-only tool changed the meaning of the build log or of the deps log, or left a lock file: -t " \o E.tool, "")} ELSE {})
-               \cup (IF E.rc # 0 /\ E.tool # "missingdeps" THEN {V("C19", "a read-only tool failed on a loadable manifest: -t " \o E.tool, "")} ELSE {})
+               \* (a tool killed by a signal or by the watchdog has a negative status; `targets depth` rightly reports an
+               \* error for a graph without root nodes, which needs a cycle)
+               \cup (IF (E.rc < 0 \/ (E.rc # 0 /\ Acyclic(g, T, L0))) /\ E.tool # "missingdeps" THEN {V("C19", "a read-only tool failed on a loadable manifest (or did not end): -t " \o E.tool, "")} ELSE {})
                \cup (IF E.tool = "commands" /\ E.rc = 0 /\ ToS(seq) # need
                      THEN {V("C19", "-t commands does not list the commands a from-scratch build of the targets runs",
                              IF ToS(seq) = needNV THEN "KF-COMMANDS-NO-VALIDATIONS" ELSE "")} ELSE {})
-               \cup (IF E.tool = "commands" /\ E.rc = 0 /\ (dup \/ misordered)
+               \cup (IF E.tool = "commands" /\ E.rc = 0 /\ acyc /\ (dup \/ misordered)
                      THEN {V("C19", "-t commands lists a command twice or before a command that produces one of its inputs", "")} ELSE {})
                \cup (IF E.tool = "commands1" /\ E.rc = 0 /\ ToS(seq) # one
                      THEN {V("C19", "-t commands -s does not list exactly the command of the target", "")} ELSE {})
